@@ -135,7 +135,20 @@ pub struct RunResult {
 
 pub fn run_schedule(sc: &Value, id: &Value, policy: &mut dyn Policy) -> RunResult {
     let cfg = cfg_from(sc);
-    let env = Env::new(cfg, Decider::Replay { script: vec![], pos: 0, diverged: false });
+    let thr0 = sc["cfg"]["thr"].as_array().cloned().unwrap_or_default();
+    // setup decisions: a member whose thread program starts with "greet" answers the Handshake later
+    // (from its own thread), every other member greets inside the subscribing call
+    let mut script = vec![];
+    let mut pids: Vec<u64> = sc["cfg"]["nodes"]
+        .as_array()
+        .map(|a| a.iter().filter(|n| n["kind"] == "puppet").map(|n| n["pid"].as_u64().unwrap_or(0)).collect())
+        .unwrap_or_default();
+    pids.sort();
+    for p in pids {
+        let later = thr0.iter().any(|t| t["pid"].as_u64() == Some(p) && t["greet"].as_bool().unwrap_or(false));
+        script.push(("sub".to_string(), format!("U{p}#1"), if later { "later" } else { "now" }.to_string()));
+    }
+    let env = Env::new(cfg, Decider::Replay { script, pos: 0, diverged: false });
     let g = build(sc, &env);
     let thr = sc["cfg"]["thr"].as_array().cloned().unwrap_or_default();
     let n = thr.len();
@@ -160,6 +173,7 @@ pub fn run_schedule(sc: &Value, id: &Value, policy: &mut dyn Policy) -> RunResul
             let pid = prog["pid"].as_u64().unwrap_or(1) as usize;
             let ndata = prog["data"].as_u64().unwrap_or(1) as usize;
             let end = prog["end"].as_str().unwrap_or("T").to_string();
+            let greet = prog["greet"].as_bool().unwrap_or(false);
             let env2 = Arc::clone(&env);
             let sched2 = Arc::clone(&sched);
             let pup = Arc::clone(&g.puppets[&pid]);
@@ -173,6 +187,9 @@ pub fn run_schedule(sc: &Value, id: &Value, policy: &mut dyn Policy) -> RunResul
                 sched2.park(t); // "th_start"
                 let r = catch_unwind(AssertUnwindSafe(|| {
                     if let Some(ix) = ix {
+                        if greet && env2.with_inst(ix, |x| x.pending) {
+                            pup.top(ix, "greet");
+                        }
                         for _ in 0..ndata {
                             // a conformant member does not begin an emission once it was stopped
                             if !env2.with_inst(ix, |x| x.live()) {
